@@ -446,6 +446,17 @@ def denotes (p : Scheme.Program) (io : Option (List (Nat × Target))) (name : Te
     mp = cl!"make-printer" && io.isNone && portInit == some wantPort && termOk
   | _, _ => false
 
+/-- References of the policy body line up with the requests of the tree, and each denotes the
+    resource requested. -/
+def reachProblem (e : Expr) (p : Scheme.Program) (io : Option (List (Nat × Target))) (onlyPrinters : Bool) : Option String :=
+  let target := if !e.hasAction then Expr.and e (.action .defaultPrint) else e
+  let reqs := (requestsOf target).filter fun r => match r with | .printer _ => true | .matcher _ _ => !onlyPrinters
+  let refs := (Scheme.symbols p.body).filter fun s => (!onlyPrinters && isPrefix (cl!"%lf3:match:") s) || isPrefix (cl!"%lf3:print:") s
+  if reqs.length ≠ refs.length then some s!"references-do-not-line-up requests={reqs.length} references={refs.length}" else
+  match (reqs.zip refs).find? (fun (r, n) => !denotes p io n r) with
+  | some (_, n) => some ("reference-denotes-another-resource " ++ String.ofList n)
+  | none => none
+
 /-- C11: generated names bound once and in scope; every reference in the policy body denotes
     the resource requested by the corresponding leaf; equal requests share one name and different
     requests never share. -/
@@ -544,7 +555,13 @@ def checkC10 (req : List String) (obs : String) : Option String :=
                 else some ("printer-tag-mismatch " ++ String.ofList n)
               | _ => some ("printer-not-framing " ++ String.ofList n)
             else none
-          bad
+          match bad with
+          | some b => some b
+          | none =>
+            -- each action's frames carry the tag whose table entry is that action's destination and terminator
+            match decodeIoMap m0 with
+            | some io => reachProblem e p io true
+            | none => some "unreadable-destination-table"
     | _ => some "unreadable-destination-table"
   | _, .panic stg => some ("panic " ++ stg)
   | _, _ => none
